@@ -18,6 +18,14 @@ CLAIMED = {
    text="Theorems (Props/C04.v): the model's only sources of Panic are the slice/index primitives; parsers proved Panic-free so far: fixed-size, integer, string, certificate, signature for every integer type code; size lookups never return negative or huge sizes. Every parser is additionally executed under recover() with a deadline on generated/mutated/raw inputs and all 65,536 type codes, and every exported argument-free method of every accepted value is invoked by reflection.",
    design="8/C04", technique="Coq proof (typed partiality) over executable model + three-valued correspondence + reflection sweep",
    note=NOTE_COMMON + "Go runtime behaviour outside the slice/index discipline (allocation, stack, logger) is not modelled; wall-clock bound is checked by deadline only."),
+ "C05": dict(
+   text="Theorems (Props/C05.v), for an ARBITRARY signature scheme: a reported success of LeaseSet2/MetaLeaseSet/EncryptedLeaseSet/LeaseSet/RouterInfo/OfflineSignature verification implies a valid signature under the contained identity's (or blinded) key over prefix||serialisation-minus-signature, and, when a transient key signs, additionally a valid offline signature under the identity key over expires||type||transient key. The model emits the verification queries each Verify makes; on ~1,800 authentic/forged/mutated structures built and signed by the harness with crypto/ed25519 the queries are answered independently and the conjunction compared with the library's verdict; the soundness oracle re-verifies over the raw received bytes.",
+   design="8/C05", technique="Coq proof over a verification-query model (scheme abstract) + query-level correspondence answered by independent Ed25519 + raw-bytes authenticity oracle",
+   note=NOTE_COMMON + "Unforgeability is not claimed: 'flipping a bit turns success into failure' holds only under the scheme's unforgeability. 'Over exactly the bytes parsed from' rests on C01 for the composite parsers (correspondence-level so far). Only Ed25519-family keys are exercised with valid signatures; DSA/ECDSA only with random signatures. Known finding D2 reported as KNOWN-FINDING."),
+ "C06": dict(
+   text="Theorems (Props/C06.v): for any scheme satisfying verify(pub sk, m, sign(sk,m)), an EncryptedLeaseSet signed as the library signs (0x05||content) and an OfflineSignature created as the library creates it verify. RouterInfo, LeaseSet, EncryptedLeaseSet (with/without offline keys) and OfflineSignature are built with the library's signing constructors from generated admissible arguments (options incl. empty values and short keys, 0..255 addresses, 0..16 leases) and verified before and after serialise+parse.",
+   design="8/C06", technique="Coq proof (sign-then-verify under the scheme's correctness law) + constructor/verify/wire oracle on the implementation",
+   note=NOTE_COMMON + "RouterInfo/LeaseSet sign-then-verify theorems need the composite round-trip lemmas and are decided by the oracle for now. Known finding D7 (NewLeaseSet2 placeholder signature) reported as KNOWN-FINDING."),
  "C09": dict(
    text="Theorems (Props/C09.v): for EVERY integer code the library's deny sets (regenerated from the Go source) equal the specification's; every Destination/RouterIdentity returned by the modelled readers/constructors carries only permitted types; permitted types are never denied. All known codes x all known codes (plus sampled unknown codes) are pushed through every API path that yields a Destination or RouterIdentity.",
    design="8/C09", technique="Coq proof by reflection over translator-regenerated deny tables + exhaustive path sweep",
@@ -26,10 +34,18 @@ CLAIMED = {
    text="Theorem (Props/C10.v): for every code 0..65535 all size lookups regenerated from the Go source (key certificate maps, signature switch, offline-signature switches, crypto size maps) agree with each other and with the specification's table written independently in Coq; out-of-range codes are errors. Translation validation: the Go lookups are called on all 65,536 codes and compared with the regenerated tables; key-block layout checked on generated identities of every supported pair.",
    design="8/C10", technique="Coq proof by reflection over translator-regenerated tables + exhaustive translation validation",
    note=NOTE_COMMON),
+ "C11": dict(
+   text="Theorems (Props/C11.v): the encoding order is sorted by key and a permutation of the input (stable insertion sort = sort.SliceStable on keys); the size field equals the number of bytes that follow; over-limit strings (>255) and >1000 pairs are rejected. The full round-trip statement is stated (Definition) and decided on model and implementation by correspondence + the round-trip/canonicity oracle on generated maps, incl. totals 65,528..66,048 bytes and 999..1,100 pairs.",
+   design="8/C11", technique="Coq proof (sorting, size field, rejection) + differential correspondence + round-trip/canonicity oracle",
+   note=NOTE_COMMON + "Round-trip theorem for all maps not yet proved (stated). Known finding D2 reported as KNOWN-FINDING."),
  "C12": dict(
    text="Theorems (Props/C12.v) over the Gallina model of package data: encode/decode inverse for every width 1..8 and every value, rejection of out-of-domain arguments, fixed-width helpers, millisecond dates for every int64 >= 0, strings of every length <= 255 with any remainder, short-input behaviour of every reader, full 64-bit range of UintSafe. Unbounded quantifiers, kernel-checked; model tied to /repo by the regenerated constants and by running model and implementation on the same ~59k cases.",
    design="8/C12", technique="Coq proof over executable model + differential correspondence (extracted OCaml and in-Coq vm_compute) + translator-regenerated constants",
    note=NOTE_COMMON + "Go time.Unix/UnixMilli arithmetic is modelled (int64 wrap explicit), not verified."),
+ "C15": dict(
+   text="Theorems (Props/C15.v): published+expires exact for all 2^32 x 2^16 field values (Go's int64 Duration arithmetic modelled explicitly, no wrap); Lease / Lease2 / OfflineSignature / meta-entry conversions exact; NewLease2 stores in-range times exactly and rejects all others; newest/oldest expiration are members bounding all other leases; expired iff strictly past.",
+   design="8/C15", technique="Coq proof (integer arithmetic with explicit int64 wrap) + differential correspondence + exactness oracle",
+   note=NOTE_COMMON + "time.Time internals are modelled by (sec,nsec) arithmetic; IsExpired is checked against the wall clock at +-1 day only."),
  "C19": dict(
    text="Theorems (Props/C19.v): integer constructors identical; exact-length signature constructor accepts exactly what the reader consumes completely (all type codes); destination/router-identity readers are the generic reader plus filter; key certificate from bytes = from certificate after ReadCertificate. ~25 pairs of entry points are run on the same generated/mutated inputs and compared (acceptance, serialisation, remainder).",
    design="8/C19", technique="Coq proof over executable model + pairwise differential oracle on the implementation",
